@@ -521,6 +521,11 @@ def _replay_dump_header(stem, vals):
             if not _np.allclose(back.box.vects, s.box.vects, rtol=1e-10, atol=1e-10) or not _np.allclose(back.box.origin, s.box.origin, rtol=1e-10, atol=1e-10) \
                     or tuple(bool(x) for x in back.pbc) != tuple(pbc):
                 msgs.append('%s cell under %s units, pbc %r: loaded %r @ %r pbc %r' % (bx, units, pbc, back.box.vects.tolist(), back.box.origin.tolist(), tuple(back.pbc)))
+        for V in ([[4.0, 0, 0], [1.2, 5.0, 0], [0.7, 0.9, 6.0]], [[4.0, 0, 0], [-1.2, 5.0, 0], [-0.7, -0.9, 6.0]]):          # tilts of equal sign: the xy+xz corner matters
+            s = am.System(atoms=am.Atoms(pos=_np.array([[0.1, 0.2, 0.3], [0.6, 0.4, 0.7]]).dot(V) + [0.5, -2.0, 3.0]), box=am.Box(vects=V, origin=[0.5, -2.0, 3.0]))
+            back = am.load('atom_dump', s.dump('atom_dump', float_format='%.13e'))
+            if not _np.allclose(back.box.vects, s.box.vects, atol=1e-10) or not _np.allclose(back.box.origin, s.box.origin, atol=1e-10):
+                msgs.append('cell %r @ %r is loaded back from its dump as %r @ %r' % (V, [0.5, -2.0, 3.0], back.box.vects.tolist(), back.box.origin.tolist()))
     except Exception as e:
         msgs.append('raised %s: %s' % (type(e).__name__, e))
     return (len(msgs) > 0, '; '.join(msgs[:3]) if msgs else 'float replay of the dump header contracts found no disagreement')
